@@ -531,7 +531,9 @@ def mean_grp(xx, groups, num_groups, nodata, yy):
             if pixv == nodata:
                 continue
             if n == 0:
-                avg = pixv
+                # accumulate in double precision, as the compiled kernel does (an int16
+                # accumulator wraps under NumPy semantics)
+                avg = float(pixv)
             else:
                 avg += pixv
             n += 1
